@@ -14,6 +14,23 @@ CHECKS = {
         'arrays of any length; C01_read_back shows get_val is exactly code*2^-n_frac. The tie to /repo is a correspondence run: every carrier x route, exhaustive '
         'quarter-LSB sweeps of small formats, boundary-biased random formats up to 52 bits, compared with the extracted Spec and model.',
    design='7/C01', technique='Coq proof of model = quantizer + differential correspondence (extracted model vs implementation)'),
+
+ 'C03': dict(
+   text='Proof: for EVERY n_word>=1 and every integer x, utils.wrap as written (mask with 2^n-1, OR with -2^n above the sign bit) returns the unique in-range integer congruent to x '
+        'modulo 2^n_word (C03_wrap_is_residue, C03_unique); wrapping commutes with + - * (C03_ring_*: n-bit register); period laws for codes and for inputs (floor/ceil/around always, '
+        'trunc/fix when the congruence implies it - C03_period_trunc_not_a_consequence records why); the core-domain store and the wide-word (>=64 bit, Python-integer) object path are '
+        'proved to store that residue. Tie: exhaustive small formats, random core formats, period pairs, words 64..256 with integers up to 4x the width, register arithmetic chains.',
+   design='7/C03', technique='Coq proof (bit-level lemmas, residue uniqueness) + differential correspondence'),
+ 'C04': dict(
+   text='Proof: per write the three raised conditions are exactly the Spec conditions and the callbacks fire once each in order (C04_write_flags_and_callbacks); for every history of '
+        'writes and resets the flags equal the OR of the per-write conditions since the last reset and extended_prec is untouched (C04_history, by induction over the history; C04_sticky; C04_reset); '
+        'inaccuracy propagation (C04_propagate). Tie: random histories of up to 10 steps with a recording callback, flags / extended_prec / callback log compared after every step.',
+   design='7/C04', technique='Coq proof by induction over histories + differential correspondence on histories'),
+ 'C05': dict(
+   text='Proof: direction, error bound and tie parity of each rounding mode stated on the stored code without the reference quantizer (C05_floor, C05_ceil, C05_trunc_fix, C05_around, '
+        'C05_error_below_lsb) for every exponent; every representable value is a fixed point of all ten mode pairs with no flag (C05_idempotent); quantization under saturate is monotone '
+        '(C05_monotone). Tie: the relations are evaluated with exact rationals directly on the implementation output over the C01 input stream, plus idempotence and sorted-input sweeps.',
+   design='7/C05', technique='Coq proof (lia/nia over div/mod by 2^k) + relation checking on implementation output'),
 }
 NA_REASON = 'check not built yet (work in progress; see DESIGN.md section 10 order of work)'
 def main():
